@@ -481,7 +481,7 @@ def currently_exiting_context(frame: types.FrameType) -> Optional[ExitingContext
                 "JUMP_BACKWARD_NO_INTERRUPT",
             )
         }
-        insns = list(dis.get_instructions(frame.f_code))
+        insns = _instructions(frame.f_code)
 
         def predecessors(pos: int) -> Iterator[int]:
             prev = None
@@ -855,6 +855,27 @@ def _check_trickery_available() -> bool:
     return _can_use_trickery
 
 
+def _instructions(code: types.CodeType) -> List[dis.Instruction]:
+    try:
+        return list(dis.get_instructions(code))
+    except ValueError:
+        # dis renders every constant as text, and an integer that is too long
+        # for that (sys.get_int_max_str_digits(): a hex literal of some
+        # thousand digits is enough) makes it give up. The instructions are
+        # the same with that constant replaced by a shorter one.
+        def tame(const: object) -> object:
+            if type(const) is int and const.bit_length() > 1000:
+                return 0
+            if type(const) is tuple:
+                return tuple(tame(elem) for elem in const)
+            if type(const) is frozenset:
+                return frozenset(tame(elem) for elem in const)
+            return const
+
+        tamed = code.replace(co_consts=tuple(tame(const) for const in code.co_consts))
+        return list(dis.get_instructions(tamed))
+
+
 def analyze_with_blocks(code: types.CodeType) -> Dict[int, Context]:
     """Analyze the bytecode of the given code object, returning a
     partially filled-in `~stackscope.Context` object for each ``with`` or
@@ -875,7 +896,7 @@ def analyze_with_blocks(code: types.CodeType) -> Dict[int, Context]:
         start_to_handler = {
             start: target for start, _, target, *_ in _parse_exception_table(code)
         }
-    insns = list(dis.Bytecode(code))
+    insns = _instructions(code)
     for idx, insn in enumerate(insns):
         if insn.starts_line is not None:
             current_line = insn.starts_line
